@@ -47,6 +47,15 @@ def run(ctx):
                     rr = [r for r in rr if not r.get('fault_not_reached')]
                     nf += sum(r['actions'].get('VoteFail', 0) for r in rr)
                     res += rr
+            if not q:
+                # persistent failure: every operation from the k-th on fails until the abort has returned (its own
+                # labelled class: see DESIGN 6/C05 fault model and finding F13)
+                for k in range(0, 3):
+                    rr = S.replay_all(ctx, ff, kind, c3, opts={'bytes_check': True, 'fault_k': k, 'fault_persist': True,
+                                                                'mode_tag': 'persistent-failure'}, tag='p%d' % k)
+                    rr = [r for r in rr if not r.get('fault_not_reached')]
+                    nf += sum(r['actions'].get('VoteFail', 0) for r in rr)
+                    res += rr
             cov['faults_injected'] = nf
         cov[kind] = S.judge(ctx, res, kind, focus=aborted)
         cov[kind]['sample'] = res[0]['sig'][:25]
